@@ -182,6 +182,17 @@ def handle : List String → String
   -- a request whose context ends inside the backend fetch fails alone: every lookup runs its own fetch with its own
   -- context under the cache lock (cache_getKey_atomic_generated), so the others are answered with the key
   | ["cachecancel", _e, _k] => "ok b=1"
+  -- key names through the worker RPC: client and worker both resolve the name they have through config.GetKey (one alias
+  -- level); getKey and sign send the SAME name (the client's resolved section), so the key that signs is the key whose
+  -- public key the handle carries (Relic.Props.C07.emitted_leaf_matches_key needs exactly this of a token)
+  | ["walias", k] =>
+    let res1 := fun (n : String) => if n = "keyA" then some "keyB" else if n = "keyB" then some "keyC"
+                                    else if n = "keyC" then some "keyC" else if n = "plain" then some "plain" else none
+    match res1 k with
+    | none => "ok refused"
+    | some c => match res1 c with
+      | none => "ok refused"
+      | some w => s!"ok pub={w} sig={w}"
   -- the pinned path end to end (client handle -> /sign request with KeyID -> handler context -> cache -> token): the
   -- handle holds id 1, a later unpinned lookup sees the rotated key (id 2), the signature is made by id 1
   -- (pinned_key_never_stale / pinned_lookup_returns_pinned), whatever the token's configured timeout
